@@ -8,7 +8,11 @@ VARIABLES eph, runs, lastSt, phase, sent, acked, failed, commitSent, commitAcked
 vars == <<eph, runs, lastSt, phase, sent, acked, failed, commitSent, commitAcked, closed, exitOk, nloads>>
 
 NoSt == [n \in PNames |-> [kind |-> "unmarked"]]
-Init == /\ eph = <<>> /\ runs = 0 /\ lastSt = NoSt
+(* C02 quantifies over all installed states: besides the empty instance, one the agent did not write -  *)
+(* a policy whose trailing reject is missing, with a range that no target asks for                    *)
+ForeignEph == <<[name |-> CHOOSE n \in PNames : TRUE, reject |-> FALSE,
+                 terms |-> <<[name |-> "inet", family |-> "inet", filters |-> SetSeq(A4), accept |-> TRUE]>>]>>
+Init == /\ eph \in {<<>>, ForeignEph} /\ runs = 0 /\ lastSt = NoSt
         /\ phase = "idle" /\ sent = 0 /\ acked = 0 /\ failed = FALSE /\ commitSent = FALSE /\ commitAcked = FALSE
         /\ closed = 0 /\ exitOk = FALSE /\ nloads = 0
 
